@@ -69,8 +69,12 @@ impl Peer {
     }
 
     pub fn handle_choke(&mut self, pieces_status: &mut Vec<Status>) {
+        // Repeated Choke: reservation was already given back, and piece can be reserved by
+        // someone else in the meantime
+        if !self.choked {
+            self.release_piece(pieces_status);
+        }
         self.choked = true;
-        self.release_piece(pieces_status);
     }
 
     /// Give back reservation of the piece assigned to this peer (if any): one peer less is
